@@ -11,6 +11,7 @@ import SnowProofs.Lemmas.CNT
 import SnowProofs.Lemmas.FlakeRun
 import SnowProofs.Props.C03
 import SnowProofs.Lemmas.FlakeCex
+import SnowProofs.Props.C04
 
 namespace Snow.C10
 open Snow Num List Snow.OpCondLemmas Snow.Flake Snow.FlakeLemmas Snow.FlakeRun
@@ -240,6 +241,27 @@ theorem cn_all_eligible_fire (p : Params ℝ) (kCN : Nat) (Tsh : ℝ) (s : State
   unfold vialStep
   rw [vialFinal, if_pos hn]
   simp [vialMid, hliq', Tn]
+
+/-! ### every repetition of a Snowfall -/
+
+/-- **fires once, at the trigger step, in EVERY repetition of a Snowfall** (any execution mode, any
+chunking): by C04 `snowfall_rep_standalone` repetition `i` is the fresh run `Snowflake(seed = i).run()`
+of the template — its time loop is `Flake.run` of the inputs determined by configuration and draw
+schedule (`inputsOf`, arbitrary) — so it is a run to which the run-level theorems above apply:
+it agrees with the same repetition without `cnTemp` on every column `≤ k_CN`, its step at `k ≠ k_CN`
+is the stochastic step, and its `k_CN` is `N+1` when no `cnTemp` is given. -/
+theorem cn_every_repetition {α : Type} [Transc α] (inputsOf : Seeds.Cfg → Seeds.Sched → Inputs α)
+    (c : Seeds.Cfg) (nv : Seeds.NV) (chunks : List (List Nat)) (nrep : Nat) (p : Nat × Seeds.Sched)
+    (hp : p ∈ Seeds.fallPool Seeds.run c (Seeds.template c nv) chunks ∨
+          p ∈ Seeds.fallSeq Seeds.run c (Seeds.template c nv) nrep) :
+    let inp := inputsOf c p.2
+    ((Seeds.exec c [.new p.1 nv, .run]).scheds.map fun s => Flake.run (inputsOf c s)) = [Flake.run inp] ∧
+    (∀ j, j < nSteps inp.oc.t_tot inp.p.dt → j ≤ kCN inp →
+      (Flake.run inp).traj[j]? = (Flake.run { inp with cnTemp := none }).traj[j]?) ∧
+    (∀ k Tsh s, k ≠ kCN inp → step inp.p (kCN inp) k Tsh s = stepCN inp.p false k Tsh s) := by
+  intro inp
+  refine ⟨?_, fun j hj hk => cn_prefix_identical_run inp j hj hk, fun k Tsh s hk => cn_only_then inp.p (kCN inp) k Tsh s hk⟩
+  exact (C04.snowfall_rep_standalone (fun c s => Flake.run (inputsOf c s)) c nv chunks nrep p hp).2
 
 /-! ### non-vacuity -/
 
